@@ -136,6 +136,7 @@ install_lock_proxies()
 # the process-wide pattern caches live here; a choice point whose running thread is at a
 # line of one of these files is "inside the cache code"
 CACHE_FILES = frozenset(["lrucache.py", "wildcard.py", "glob.py"])
+CACHE_PURE_FUNCS = frozenset(["_translate", "_translate_glob", "_split_pattern_by_sep"])  # pattern -> regex text
 _INCACHE = {}
 
 _TRACED = {"shared": {}, "all": {}}
@@ -278,7 +279,8 @@ class Sched(object):
             code = frame.f_code
             ic = _INCACHE.get(code)
             if ic is None:
-                ic = _INCACHE[code] = os.path.basename(code.co_filename) in CACHE_FILES
+                ic = _INCACHE[code] = (os.path.basename(code.co_filename) in CACHE_FILES
+                                       and code.co_name not in CACHE_PURE_FUNCS)
             self.incache = ic
         else:
             self.incache = False
@@ -637,7 +639,10 @@ def do_call(inst, t, call):
             f.setinfo(P(a[0]), {"details": {"modified": 86400.0 * (t + 1)}})
             return "ok"
         if m == "glob":
-            c = f.glob(P(a[0]).rstrip("/") + "/" + (a[1] if len(a) > 1 else "*")).count()
+            if len(a) > 1:      # pattern cache cases: walk only the given directory
+                c = f.glob(a[1], path=P(a[0])).count()
+            else:
+                c = f.glob(P(a[0]).rstrip("/") + "/*").count()
             return "glob(%d,%d,%d)" % (c.files, c.directories, c.data)
         if m == "walk":
             l = sorted(f.walk.files(P(a[0]), filter=a[1:] or ["*", "?*"]))
@@ -684,7 +689,7 @@ def warm_patterns(case, inst):
             a = c["args"]
             base = inst.path(a[0]).rstrip("/") + "/"
             if c["m"] == "glob":
-                globs.append(base + (a[1] if len(a) > 1 else "*"))
+                globs.append(a[1] if len(a) > 1 else base + "*")
             elif c["m"] == "match_glob":
                 globs.append(base + a[1])
             elif c["m"] in ("walk", "match", "filterdir") and len(a) > 1:
@@ -1175,8 +1180,11 @@ def tier_plan(tier, seed):
                 off = FS_KINDS.index(kind)
                 cases = [c for k, c in enumerate(cases) if (k + off + seed) % 4 == 0]
             plan.append((cases, dict(bound=1, cap1=14, cap2=0, random=26, uniform=0)))
+        # MemoryFS.scandir holds the filesystem lock across its yields, so filterdir / walk
+        # serialise their cache look-ups there; OSFS has no such lock
         plan.append((cache_cases("MemoryFS", True), CACHE_PARAMS))
         plan.append((cache_cases("MemoryFS", False), CACHE_PARAMS))
+        plan.append((cache_cases("OSFS", True), CACHE_PARAMS))
     return plan
 
 
@@ -1431,7 +1439,8 @@ RULE = ("case = (filesystem kind in MemoryFS/OSFS(temp dir)/MountFS(one MemoryFS
         "caches, cold and warm). Pattern cache cases: FS.match / match_glob / filterdir / walk.files / "
         "glob.count with the SAME pattern against each other on a warm and on a cold cache, with "
         "every single preemption and EVERY double preemption whose switch points are lines of "
-        "fs/lrucache.py, fs/wildcard.py, fs/glob.py. Every schedule starts from the same fixed tree (6 dirs, 8 files) "
+        "fs/lrucache.py, fs/wildcard.py, fs/glob.py (outside the pure pattern-to-regex translation "
+        "functions). Every schedule starts from the same fixed tree (6 dirs, 8 files) "
         "on a fresh instance. Schedules per case: both non-preemptive orders, single preemptions "
         "(all, or a seeded sample of cap1), double preemptions (seeded sample of cap2; thorough), "
         "random 1-4 preemption schedules, uniform random schedules; yield point = every line of "
